@@ -340,6 +340,9 @@ func (r *Recomposer) recomp(v any, rv reflect.Value) {
 		if et.Kind() == reflect.Ptr {
 			et = et.Elem()
 			for i := 0; i < size; i++ {
+				if va[i] == nil { // a null element is a nil pointer, not a pointer to a zero value
+					continue
+				}
 				ev := reflect.New(et)
 				r.recomp(va[i], ev)
 				av.Index(i).Set(ev)
@@ -400,6 +403,10 @@ func (r *Recomposer) recomp(v any, rv reflect.Value) {
 		case et.Kind() == reflect.Ptr:
 			et = et.Elem()
 			for k, m := range vm {
+				if m == nil { // a null member is a nil pointer, not a pointer to a zero value
+					rv.SetMapIndex(reflect.ValueOf(k), reflect.Zero(rv.Type().Elem()))
+					continue
+				}
 				ev := reflect.New(et)
 				r.recomp(m, ev)
 				rv.SetMapIndex(reflect.ValueOf(k), ev)
